@@ -68,3 +68,9 @@ PROPS["C17"]["freerun"] = {"rounds_quick": 400, "rounds_thorough": 20000, "race"
                            "meaning": "ServeConn still running 20 s after both ends of the transport were closed"}
 PROPS["C01"]["freerun"] = {"rounds_quick": 400, "rounds_thorough": 20000, "race": False, "watch": ["mismatch"],
                            "meaning": "a 200 response whose body is not the echo of the request that caller sent"}
+
+# the configuration glue and the handshake (Impl/ServerSetup.v, Props/Setup.v): its theorems are counted with the
+# properties whose clauses they carry; the tie is this suite (servers built from raw values through either
+# constructor, handshake bytes compared)
+ALSO = {"server": []}
+ALSO_PROPS_BY_PID = {"C18": ["Setup"], "C13": ["Setup"], "C01": ["Setup"], "C14": ["Setup"]}
